@@ -398,7 +398,7 @@ def installed():
 # Part A driver
 # --------------------------------------------------------------------------------------------------------------
 
-RNG_CAP = 150
+RNG_CAP = 48
 
 
 def check_dict(d, seed):
@@ -667,13 +667,14 @@ def _worker(task):
 
     with installed():
         if kind == "A-exh":
-            _, nlabels, max_arity, k, lo, hi, seed = task
+            _, nlabels, max_arity, k, shard, nshards, seed = task
             rules = int_rules(nlabels, max_arity)
-            for i0 in range(lo, hi):
-                for rest in itertools.combinations(range(i0 + 1, len(rules)), k - 1):
-                    d = _to_dict([rules[i0]] + [rules[j] for j in rest])
-                    v, e, nt = check_dict(d, seed)
-                    record(v, e, nt, {"part": "A", "dict": _show(d)})
+            for n, combo in enumerate(itertools.combinations(rules, k)):
+                if n % nshards != shard:
+                    continue
+                d = _to_dict(combo)
+                v, e, nt = check_dict(d, seed)
+                record(v, e, nt, {"part": "A", "dict": _show(d)})
         elif kind == "A-rnd":
             _, nlabels, max_arity, kmax, n, seed = task
             rng = random.Random(seed)
@@ -687,17 +688,17 @@ def _worker(task):
                 v, e, nt = check_dict(d, rng.randrange(10 ** 6))
                 record(v, e, nt, {"part": "A", "dict": _show(d)})
         elif kind == "B-exh":
-            _, nlabels, max_arity, k, lo, hi, seed = task
+            _, nlabels, max_arity, k, shard, nshards, seed = task
             rules = stub_rules(nlabels, max_arity)
-            for i0 in range(lo, hi):
-                for rest in itertools.combinations(range(i0 + 1, len(rules)), k - 1):
-                    rs = [rules[i0]] + [rules[j] for j in rest]
-                    for order in itertools.permutations(rs):
-                        for start in range(nlabels):
-                            for iterative in (False, True):
-                                v, e, nt = run_history(list(order), start, iterative, seed)
-                                record(v, e, nt, {"part": "B", "history": [list(map(_j, r)) for r in order],
-                                                  "start": start, "iterative": iterative})
+            for n, rs in enumerate(itertools.combinations(rules, k)):
+                if n % nshards != shard:
+                    continue
+                for order in itertools.permutations(rs):
+                    for start in range(nlabels):
+                        for iterative in (False, True):
+                            v, e, nt = run_history(list(order), start, iterative, seed)
+                            record(v, e, nt, {"part": "B", "history": [list(map(_j, r)) for r in order],
+                                              "start": start, "iterative": iterative})
         elif kind == "B-rnd":
             _, nlabels, max_arity, kmax, n, seed = task
             rng = random.Random(seed)
@@ -726,60 +727,45 @@ def _j(x):
     return list(x) if isinstance(x, tuple) else x
 
 
-def _slices(n, pieces):
-    """Slices of range(n); with pieces=None one slice per first index (the first ones are the most expensive)."""
-    if pieces is None:
-        return [(i, i + 1) for i in range(n)]
-    b = sorted({round(n * j / pieces) for j in range(pieces + 1)})
-    return [(x, y) for x, y in zip(b, b[1:]) if x < y]
+def _exh(kind, nlabels, max_arity, k, nshards, seed):
+    """The sets of k rules are dealt round-robin to nshards tasks (balanced whatever the cost profile)."""
+    return [(kind, nlabels, max_arity, k, sh, nshards, seed) for sh in range(nshards)]
 
 
 def run(tier, seed):
     _quiet()
     tasks = []
     if tier == "quick":
-        for k in (1, 2, 3):
-            n = len(int_rules(3, 3))
-            tasks += [("A-exh", 3, 3, k, lo, hi, seed) for lo, hi in _slices(n, 1 if k == 1 else None)]
+        tasks += _exh("B-exh", 3, 2, 3, 96, seed) + _exh("A-exh", 3, 3, 3, 96, seed)
+        tasks += _exh("B-exh", 3, 2, 2, 4, seed) + _exh("A-exh", 3, 3, 2, 4, seed)
+        tasks += _exh("B-exh", 3, 2, 1, 1, seed) + _exh("A-exh", 3, 3, 1, 1, seed)
         for i in range(32):
             tasks.append(("A-rnd", 4, 3, 5, 500, seed * 1000 + i))
-        for k in (1, 2, 3):
-            n = len(stub_rules(3, 2))
-            tasks += [("B-exh", 3, 2, k, lo, hi, seed) for lo, hi in _slices(n, 1 if k == 1 else None)]
         for i in range(32):
             tasks.append(("B-rnd", 4, 3, 5, 600, seed * 1000 + 100 + i))
         bound = ("Part A (tree_searcher on integer rule dictionaries, every root): EXHAUSTIVE sets of <=3 rules over 3 labels, "
                  "arity 0..3 (repeated children allowed); SEEDED 16000 dictionaries of 2..5 rules over 4 labels, arity 0..3; "
-                 "random_proof_tree under every choice/shuffle outcome (odometer, capped at 150 runs per dictionary/root), "
+                 "random_proof_tree under every choice/shuffle outcome (odometer, capped at 48 runs per dictionary/root), "
                  "smallish under seeded RNG + fake clock (0..9 ticks), dfs generator with maximum 0..min+2. "
                  "Part B (RuleDB with stub rules, has_specification after every add): EXHAUSTIVE sets of <=3 rules over 3 "
                  "labels, arity 0..2, single-child rules one-way and two-way, EVERY insertion order, every start label, "
                  "recursive and iterative pack; SEEDED 19200 histories of 2..5 rules over 4 labels, arity 0..3, both packs")
     else:
-        for k in (1, 2, 3, 4):
-            n = len(int_rules(3, 3))
-            tasks += [("A-exh", 3, 3, k, lo, hi, seed) for lo, hi in _slices(n, 1 if k == 1 else None)]
-        for k in (1, 2, 3):
-            n = len(int_rules(4, 3))
-            tasks += [("A-exh", 4, 3, k, lo, hi, seed) for lo, hi in _slices(n, 1 if k == 1 else None)]
+        tasks += _exh("A-exh", 3, 3, 4, 512, seed) + _exh("B-exh", 3, 2, 4, 512, seed) + _exh("A-exh", 4, 3, 3, 512, seed)
+        tasks += _exh("B-exh", 3, 2, 3, 64, seed) + _exh("A-exh", 3, 3, 3, 64, seed)
+        for k in (1, 2):
+            tasks += _exh("B-exh", 3, 2, k, 4, seed) + _exh("A-exh", 3, 3, k, 4, seed) + _exh("A-exh", 4, 3, k, 4, seed)
         for i in range(64):
             tasks.append(("A-rnd", 4, 3, 6, 4000, seed * 1000 + i))
-        for k in (1, 2, 3, 4):
-            n = len(stub_rules(3, 2))
-            tasks += [("B-exh", 3, 2, k, lo, hi, seed) for lo, hi in _slices(n, 1 if k == 1 else None)]
         for i in range(64):
             tasks.append(("B-rnd", 4, 3, 6, 5000, seed * 1000 + 100 + i))
         bound = ("Part A (tree_searcher on integer rule dictionaries, every root): EXHAUSTIVE sets of <=4 rules over 3 labels "
                  "and of <=3 rules over 4 labels, arity 0..3 (repeated children allowed); SEEDED 256000 dictionaries of 2..6 "
-                 "rules over 4 labels; random_proof_tree under every choice/shuffle outcome (odometer, capped at 150 runs per "
+                 "rules over 4 labels; random_proof_tree under every choice/shuffle outcome (odometer, capped at 48 runs per "
                  "dictionary/root), smallish under seeded RNG + fake clock, dfs generator with maximum 0..min+2. "
                  "Part B (RuleDB with stub rules, has_specification after every add): EXHAUSTIVE sets of <=4 rules over 3 "
                  "labels, arity 0..2, single-child rules one-way and two-way, EVERY insertion order, every start label, "
                  "recursive and iterative pack; SEEDED 320000 histories of 2..6 rules over 4 labels, arity 0..3, both packs")
-    # expensive tasks first: exhaustive slices with many rules and a small first index
-    tasks.sort(key=lambda t: (0, -t[3], t[4]) if t[0].endswith("exh") else (1, 0, 0))
-    tasks = [t for t in tasks if t[0] == "B-exh"][:12] + [t for t in tasks if t[0] != "B-exh"] + \
-        [t for t in tasks if t[0] == "B-exh"][12:]
     ctx = multiprocessing.get_context("fork")
     with ctx.Pool(NPROC) as pool:
         results = pool.map(_worker, tasks, chunksize=1)
